@@ -141,4 +141,35 @@ pub fn lll_small(s: &mut Src) -> R {
     ob!(&(sr.p().unwrap() * &a) * sr.q().unwrap() == *sr.result(), "snf[P,Q-only]::D==P.A.Q");
     Ok(())
 }
-crate::harness_table!(SNF: snf_small [unwind 4], snf_gauss_small [unwind 4], trans_small [unwind 4], lll_small [unwind 4]);
+// C09 / C10: the ASSUMED contracts of the dense matrix container's elementary operations, tested against the real `Mat`:
+// each operation equals left / right multiplication by the elementary matrix the overlays (units snf_prims, lll_prims) name.
+pub fn snf_mat_ops(s: &mut Src) -> R {
+    const N: usize = 3;
+    let mut e = [0i64; N * N];
+    for k in 0..N * N { e[k] = s.small(-4, 4); }
+    let (i, j) = (s.small(0, 2) as usize, s.small(0, 2) as usize);
+    let (a, b, c, d, r) = (s.small(-3, 3), s.small(-3, 3), s.small(-3, 3), s.small(-3, 3), s.small(-3, 3));
+    reach!();
+    let m = Mat::from_data((N, N), e);
+    let el = |f: &dyn Fn(usize, usize) -> i64| Mat::from_data((N, N), (0..N * N).map(|p| f(p / N, p % N)).collect::<Vec<_>>());
+    let id = |x: usize, y: usize| if x == y { 1 } else { 0 };
+    let e_swap = el(&|x, y| { let x2 = if x == i { j } else if x == j { i } else { x }; id(x2, y) });
+    let e_scale = el(&|x, y| if x == y { if x == i { r } else { 1 } } else { 0 });
+    let mut t = m.clone(); t.swap_rows(i, j); ob!(t == &e_swap * &m, "Mat::swap_rows==E_swap.M");
+    let mut t = m.clone(); t.swap_cols(i, j); ob!(t == &m * &e_swap, "Mat::swap_cols==M.E_swap");
+    let mut t = m.clone(); t.mul_row(i, &r); ob!(t == &e_scale * &m, "Mat::mul_row==E_scale.M");
+    let mut t = m.clone(); t.mul_col(i, &r); ob!(t == &m * &e_scale, "Mat::mul_col==M.E_scale");
+    if i != j {
+        // row_j += r row_i  =  (I + r e_{j,i}) M ;  col_j += r col_i  =  M (I + r e_{i,j})
+        let sh_l = el(&|x, y| id(x, y) + if x == j && y == i { r } else { 0 });
+        let sh_r = el(&|x, y| id(x, y) + if x == i && y == j { r } else { 0 });
+        let mut t = m.clone(); t.add_row_to(i, j, &r); ob!(t == &sh_l * &m, "Mat::add_row_to==E_shear(j,i,r).M");
+        let mut t = m.clone(); t.add_col_to(i, j, &r); ob!(t == &m * &sh_r, "Mat::add_col_to==M.E_shear(i,j,r)");
+        // [a b; c d] embedded at (i, j) from the left; from the right the overlay names e_emb(a, c, b, d): columns i, j become a col_i + b col_j, c col_i + d col_j
+        let emb = |p: i64, q: i64, u: i64, v: i64| el(&|x, y| if x == i && y == i { p } else if x == i && y == j { q } else if x == j && y == i { u } else if x == j && y == j { v } else { id(x, y) });
+        let mut t = m.clone(); t.left_elementary([&a, &b, &c, &d], i, j); ob!(t == &emb(a, b, c, d) * &m, "Mat::left_elementary==E_emb(a,b,c,d).M");
+        let mut t = m.clone(); t.right_elementary([&a, &b, &c, &d], i, j); ob!(t == &m * &emb(a, c, b, d), "Mat::right_elementary==M.E_emb(a,c,b,d)");
+    }
+    Ok(())
+}
+crate::harness_table!(SNF: snf_small [unwind 4], snf_gauss_small [unwind 4], trans_small [unwind 4], lll_small [unwind 4], snf_mat_ops [unwind 4]);
